@@ -253,4 +253,81 @@ theorem bitmap_roundtrip (l : List Bool) (h : l.length = 16) :
         = bitmapNat [c0, c1, c2, c3, c4, c5, c6, c7] := by omega
     rw [e1, e2, bits8, bits8]; rfl
 
+/-! ### the read mode of the compact length is unobservable -/
+
+theorem scaleBytes2_self (s : Bool) (r : Bytes) : scaleBytes2 s s r = scaleBytes s r := rfl
+
+theorem readBuf_cases (n : Nat) (r : Bytes) :
+    readBuf true n r = readBuf false n r ∨
+      (readBuf true n r = none ∧ ∃ buf, readBuf false n r = some (buf, [])) := by
+  cases r with
+  | nil => left; rfl
+  | cons x xs =>
+    by_cases h : (x :: xs).length < n
+    · right
+      have h' : xs.length + 1 < n := by simpa using h
+      refine ⟨by simp [readBuf, h'], (x :: xs).take n ++ List.replicate (n - (x :: xs).length) 0, ?_⟩
+      have hd : (x :: xs).drop n = [] := List.drop_eq_nil_of_le (by omega)
+      simp only [readBuf, Bool.false_and, Bool.false_eq_true, if_false, hd]
+    · left
+      have h' : ¬ (xs.length + 1 < n) := by simpa using h
+      simp [readBuf, h']
+
+theorem readBuf_nil (s : Bool) (n : Nat) : readBuf s n [] = none := rfl
+
+/-- the outcome of `compactLen` under the two behaviours: equal, or the strict one fails while the
+    lenient one returns a non-zero length with nothing left to read -/
+theorem compactLen_cases (r : Bytes) :
+    compactLen true r = compactLen false r ∨
+      (compactLen true r = none ∧
+        (compactLen false r = none ∨ ∃ len, compactLen false r = some (len, []) ∧ len ≠ 0)) := by
+  cases r with
+  | nil => left; rfl
+  | cons p r1 =>
+    simp only [compactLen]
+    split
+    · left; rfl
+    · split
+      · left; rfl
+      · split
+        · rcases readBuf_cases 3 r1 with h | ⟨h1, buf, h2⟩
+          · left; rw [h]
+          · right
+            rw [h1, h2]
+            refine ⟨rfl, ?_⟩
+            simp only []
+            split
+            · left; rfl
+            · right; rename_i hv; exact ⟨_, rfl, by omega⟩
+        · rcases readBuf_cases (p.toNat / 4 + 4) r1 with h | ⟨h1, buf, h2⟩
+          · left; rw [h]
+          · right
+            rw [h1, h2]
+            refine ⟨rfl, ?_⟩
+            simp only []
+            split
+            · split
+              · left; rfl
+              · right; rename_i hv; exact ⟨_, rfl, by omega⟩
+            · split
+              · split
+                · left; rfl
+                · right; rename_i hv; exact ⟨_, rfl, by omega⟩
+              · left; rfl
+
+/-- **The behaviour of the integer reads is unobservable through `decodeBytes`**: a compact length
+    whose bytes are cut short leaves nothing for the data read, which then fails in either case. -/
+theorem scaleBytes2_int_irrelevant (si si' sd : Bool) (r : Bytes) :
+    scaleBytes2 si sd r = scaleBytes2 si' sd r := by
+  have key : scaleBytes2 true sd r = scaleBytes2 false sd r := by
+    unfold scaleBytes2
+    rcases compactLen_cases r with h | ⟨h1, h2 | ⟨len, h2, h3⟩⟩
+    · rw [h]
+    · rw [h1, h2]
+    · rw [h1, h2]
+      simp only [h3, if_false, readBuf_nil]
+      split <;> rfl
+  cases si <;> cases si' <;> simp [key]
+
+
 end Gossamer.TrieCodec
